@@ -359,6 +359,14 @@ class Constructs(mixin.Container, core.Constructs):
             axis0: axis1 for axis1, axis0 in axis1_to_axis0.items()
         }
 
+        # Domain axis constructs that are spanned by no data are not
+        # in the axis mapping. Such axes are matched up here, by
+        # size, as the cell methods that refer to them are compared
+        # (in a copy of the mapping).
+        axis1_to_axis0 = axis1_to_axis0.copy()
+        domain_axes0 = self._construct_dict("domain_axis")
+        domain_axes1 = other._construct_dict("domain_axis")
+
         for cm0, cm1 in zip(
             tuple(cell_methods0.values()), tuple(cell_methods1.values())
         ):
@@ -393,6 +401,23 @@ class Constructs(mixin.Container, core.Constructs):
                             f"{cell_methods0}\n  {cell_methods1}"
                         )  # pragma: no cover
                         return False
+                    elif axis0 in domain_axes0 or axis1 in domain_axes1:
+                        # At least one of axis0 and axis1 is a domain
+                        # axis construct that is spanned by no data
+                        if (
+                            axis0 in domain_axes0
+                            and axis1 in domain_axes1
+                            and domain_axes0[axis0].get_size(-1)
+                            == domain_axes1[axis1].get_size(-1)
+                        ):
+                            # Both are, and they have the same size,
+                            # so from now on they correspond to each
+                            # other
+                            axis0_to_axis1[axis0] = axis1
+                            axis1_to_axis0[axis1] = axis0
+                            axes1.remove(axis1)
+                            indices.append(cm1.get_axes(()).index(axis1))
+                            break
                     elif axis0 == axis1:
                         # axes0 and axis 1 are identical standard
                         # names
